@@ -22,6 +22,7 @@
 //!   narrowing through f32, Timestamp -> Date64 day truncation);
 //! * named time zones (the harness builds without chrono-tz: rejected);
 //! * dictionary key capacity (more distinct values than the key type holds);
+//! * errors of arrow-select's `take` on run-end encoded arrays;
 //! * nullability errors of struct / list casts (all generated fields are nullable);
 //! * the converse of (1): `can_cast_types == false` pairs are not cast.
 
@@ -71,29 +72,127 @@ pub struct CastRun {
     pub model_panic: Option<String>,
 }
 
+/// Message class of an error / panic: run-specific data (values, quoted
+/// input) and everything that only names the types involved (type names,
+/// units, parameters) is removed, so that one defect has one class whatever
+/// the type pair it is observed on.
 fn msg_class(m: &str) -> String {
-    // values and quoted input are run-specific
+    if m.contains("dictionary packing") {
+        return "dictionary-packing".into();
+    }
+    if m.contains("Casting from") && m.contains("not supported") {
+        return "casting-not-supported".into();
+    }
+    // quoted input
     let mut out = String::new();
     let mut quote: Option<char> = None;
+    let mut depth = 0usize;
     for c in m.chars() {
         match quote {
             Some(q) => {
                 if c == q {
                     quote = None;
-                    out.push('_');
+                    if depth == 0 {
+                        out.push('_');
+                    }
                 }
             }
             None => {
                 if c == '\'' || c == '"' {
                     quote = Some(c);
-                } else {
+                } else if c == '(' {
+                    depth += 1;
+                } else if c == ')' {
+                    depth = depth.saturating_sub(1);
+                } else if depth == 0 {
                     out.push(c);
                 }
             }
         }
     }
     let s = strip_digits(&out).replace("-#", "#").replace("#.#", "#").replace("#e#", "#");
-    s.chars().take(70).collect()
+    // type words
+    const TYPES: &[&str] = &[
+        "Int#", "UInt#", "Float#", "Utf#", "LargeUtf#", "Utf#View", "Binary", "LargeBinary", "BinaryView", "FixedSizeBinary",
+        "Decimal#", "Date#", "Time#", "Timestamp", "Duration", "Interval", "Boolean", "Null", "List", "LargeList", "ListView",
+        "LargeListView", "FixedSizeList", "Struct", "Map", "Union", "Dictionary", "RunEndEncoded",
+    ];
+    let mut res = String::new();
+    let mut tok = String::new();
+    let flush = |tok: &mut String, res: &mut String| {
+        if tok.is_empty() {
+            return;
+        }
+        let unit = ["Second", "Millisecond", "Microsecond", "Nanosecond"];
+        let mut t = tok.clone();
+        for u in unit {
+            // e.g. TimestampMicrosecondType
+            if let Some(i) = t.find(u) {
+                if i > 0 {
+                    t.replace_range(i..i + u.len(), "*");
+                    break;
+                }
+            }
+        }
+        if TYPES.contains(&t.as_str()) {
+            res.push('T');
+        } else {
+            res.push_str(&t);
+        }
+        tok.clear();
+    };
+    for c in s.chars() {
+        if c.is_alphanumeric() || c == '#' || c == '_' {
+            tok.push(c);
+        } else {
+            flush(&mut tok, &mut res);
+            res.push(c);
+        }
+    }
+    flush(&mut tok, &mut res);
+    let res: String = res.split_whitespace().collect::<Vec<_>>().join(" ");
+    res.chars().take(72).collect()
+}
+
+/// type family used in signatures (no widths, units, zones, parameters)
+fn fam(dt: &DataType) -> &'static str {
+    use DataType::*;
+    match dt {
+        Null => "Null",
+        Boolean => "Bool",
+        Int8 | Int16 | Int32 | Int64 | UInt8 | UInt16 | UInt32 | UInt64 => "Int",
+        Float16 | Float32 | Float64 => "Float",
+        Decimal32(_, _) | Decimal64(_, _) | Decimal128(_, _) | Decimal256(_, _) => "Decimal",
+        Date32 | Date64 => "Date",
+        Time32(_) | Time64(_) => "Time",
+        Timestamp(_, _) => "Timestamp",
+        Duration(_) => "Duration",
+        Interval(_) => "Interval",
+        Utf8 | LargeUtf8 | Utf8View => "String",
+        Binary | LargeBinary | BinaryView | FixedSizeBinary(_) => "Binary",
+        Dictionary(_, _) => "Dictionary",
+        RunEndEncoded(_, _) => "RunEndEncoded",
+        List(_) | LargeList(_) | ListView(_) | LargeListView(_) => "List",
+        FixedSizeList(_, _) => "FixedSizeList",
+        Struct(_) => "Struct",
+        Map(_, _) => "Map",
+        Union(_, _) => "Union",
+    }
+}
+
+/// phenomenon class used to compare observations across nesting levels
+fn coarse(kind: &str) -> String {
+    let k = kind.strip_suffix("|layout-dependent").unwrap_or(kind);
+    match k.split('|').next().unwrap_or(k) {
+        "wrong-value" | "null-for-representable" | "value-for-unrepresentable" | "wrong-shape" | "strict-subset-differs"
+        | "strict-subset-err" | "strict-ok-but-safe-nulled" | "strict-differs-from-safe" => "wrong-result".into(),
+        "result-len" | "result-type" | "result-invalid" => "result-shape".into(),
+        _ => k.to_string(),
+    }
+}
+
+fn is_err_kind(k: &str) -> bool {
+    k.starts_with("safe-err") || k.starts_with("panic") || k.starts_with("can-cast-but-unsupported")
 }
 
 /// a null scalar wrapped into a list may come out as NULL or as [NULL]
@@ -161,6 +260,12 @@ fn safe_err_rejection(msg: &str, b: &DataType, a: &DataType) -> Option<&'static 
     if msg.contains("non-nullable") {
         return Some("nullability");
     }
+    if msg.contains("out of bounds for RunArray") {
+        // not asserted: arrow-select's `take` on run-end encoded arrays (an
+        // empty RunArray taken with null indices errs); reached through
+        // dictionary unpacking / union extraction, it is not a cast rule
+        return Some("run-array-take");
+    }
     let reeish = |t: &DataType| format!("{t:?}").contains("RunEndEncoded");
     if (reeish(b) || reeish(a)) && msg.contains("Run end index out of range") {
         return Some("ree-capacity");
@@ -208,9 +313,14 @@ fn run_pair_inner(a: &DataType, b: &DataType, vals: &[Val], arr: &ArrayRef, fo: 
                 r.rejected = Some("model-panic");
                 return r;
             }
+            if p.msg.contains("DictionaryKeyOverflowError") {
+                // not asserted: dictionary key capacity
+                r.rejected = Some("dict-capacity");
+                return r;
+            }
             add(
                 &mut r,
-                &format!("panic|safe=true|{}|{}", panic_file(&p), msg_class(&p.msg)),
+                &format!("panic|{}|{}", panic_file(&p), msg_class(&p.msg)),
                 format!("panic: {} @ {}", p.msg, p.loc),
             );
             r.outcome = "safe-panic";
@@ -294,10 +404,10 @@ fn run_pair_inner(a: &DataType, b: &DataType, vals: &[Val], arr: &ArrayRef, fo: 
     // ---- strict mode
     match strict {
         Outcome::Panic(p) => {
-            if !p.is_model() {
+            if !p.is_model() && !p.msg.contains("DictionaryKeyOverflowError") {
                 add(
                     &mut r,
-                    &format!("panic|safe=false|{}|{}", panic_file(&p), msg_class(&p.msg)),
+                    &format!("panic|{}|{}", panic_file(&p), msg_class(&p.msg)),
                     format!("panic: {} @ {}", p.msg, p.loc),
                 );
             }
@@ -379,14 +489,33 @@ fn run_pair_inner(a: &DataType, b: &DataType, vals: &[Val], arr: &ArrayRef, fo: 
                                 );
                             }
                         }
-                        Outcome::Err(m2) => add(
-                            &mut r,
-                            "strict-subset-err",
-                            format!("safe=false fails on the sub-array of rows that safe=true kept: {m2}; kept rows {}", dump_vals(&sub)),
-                        ),
+                        Outcome::Err(m2) => {
+                            // the sub-array is a column in its own right: if safe
+                            // mode fails on it too, that is the finding
+                            match run_op(|| cast_with_options(sub_arr.as_ref(), b, &opts(true, fo))) {
+                                Outcome::Err(m3) if safe_err_rejection(&m3, b, a).is_none() => {
+                                    let kind = if is_rejection_msg(&m3) {
+                                        format!("can-cast-but-unsupported|{}", msg_class(&m3))
+                                    } else {
+                                        format!("safe-err|{}", msg_class(&m3))
+                                    };
+                                    add(
+                                        &mut r,
+                                        &kind,
+                                        format!("safe=true returned Err on the rows it kept from the full column: {m3}; rows {}", dump_vals(&sub)),
+                                    );
+                                }
+                                Outcome::Err(_) => {}
+                                _ => add(
+                                    &mut r,
+                                    "strict-subset-err",
+                                    format!("safe=false fails on the sub-array of rows that safe=true kept: {m2}; kept rows {}", dump_vals(&sub)),
+                                ),
+                            }
+                        }
                         Outcome::Panic(p) => add(
                             &mut r,
-                            &format!("panic|safe=false|{}|{}", panic_file(&p), msg_class(&p.msg)),
+                            &format!("panic|{}|{}", panic_file(&p), msg_class(&p.msg)),
                             format!("panic: {} @ {}", p.msg, p.loc),
                         ),
                     }
@@ -460,18 +589,101 @@ fn full_peel(a: &DataType, b: &DataType) -> (DataType, DataType, String) {
 }
 
 pub struct Book {
-    /// kinds a pair shows on its own (canonical) boundary column
+    /// phenomenon classes a pair shows on its own deterministic columns
+    /// (boundary column in canonical, masked and sliced layouts)
     probes: HashMap<(String, String), BTreeSet<String>>,
-    /// random type pairs (section `rand`) use coarse container-level keys
-    coarse: bool,
     /// attribution is computed once per (pair, kind)
     sig_cache: HashMap<(String, String, String), String>,
     reported: BTreeSet<String>,
 }
 
+/// values that are physically valid for the type but outside its declared
+/// domain: what may sit under a null or in an unused dictionary slot
+fn wild_vals(dt: &DataType) -> Vec<Val> {
+    use DataType::*;
+    match dt {
+        Decimal32(_, _) => vec![Val::Int(i32::MAX as i128), Val::Int(i32::MIN as i128)],
+        Decimal64(_, _) => vec![Val::Int(i64::MAX as i128), Val::Int(i64::MIN as i128)],
+        Decimal128(_, _) => vec![Val::Int(i128::MAX), Val::Int(i128::MIN)],
+        Decimal256(_, _) => vec![Val::Big(arrow_buffer::i256::MAX), Val::Big(arrow_buffer::i256::MIN)],
+        Time32(_) => vec![Val::Int(-1), Val::Int(i32::MAX as i128)],
+        Time64(_) => vec![Val::Int(-1), Val::Int(i64::MAX as i128)],
+        Dictionary(_, v) => wild_vals(v),
+        RunEndEncoded(_, v) => wild_vals(v.data_type()),
+        List(c) | LargeList(c) | ListView(c) | LargeListView(c) => {
+            wild_vals(c.data_type()).into_iter().map(|w| Val::List(vec![w])).collect()
+        }
+        FixedSizeList(c, 1) => wild_vals(c.data_type()).into_iter().map(|w| Val::List(vec![w])).collect(),
+        Union(fs, _) => fs
+            .iter()
+            .flat_map(|(t, f)| wild_vals(f.data_type()).into_iter().map(move |w| Val::Union(t, Box::new(w))))
+            .collect(),
+        _ => vec![],
+    }
+}
+
+/// Deterministic adversarial layouts of a logical column: all rows masked
+/// (with out-of-domain values added underneath), odd rows masked, and a slice
+/// at a non-zero offset. Each item: (name, array, logical values).
+fn adversarial(a: &DataType, vals: &[Val]) -> Vec<(&'static str, ArrayRef, Vec<Val>)> {
+    let mut out = vec![];
+    if vals.is_empty() {
+        return out;
+    }
+    let mut with_wild = vals.to_vec();
+    with_wild.extend(wild_vals(a));
+    if let Ok(full) = crate::mon::guard(|| build(a, &with_wild)) {
+        if let Some(arr) = mask_rows(&full, |_| false) {
+            let logical = extract(arr.as_ref());
+            out.push(("masked-all", arr, logical));
+        }
+    }
+    if let Ok(full) = crate::mon::guard(|| build(a, vals)) {
+        if let Some(arr) = mask_rows(&full, |i| i % 2 == 0) {
+            let logical = extract(arr.as_ref());
+            out.push(("masked-odd", arr, logical));
+        }
+    }
+    // a slice: three leading rows that are not part of the column
+    let k = 3.min(vals.len());
+    let mut padded: Vec<Val> = vals[vals.len() - k..].to_vec();
+    padded.extend_from_slice(vals);
+    let mut padded_c = padded.clone();
+    if has_small_dict(a) && padded_c.len() > 100 {
+        padded_c.truncate(100);
+    }
+    if let Ok(full) = crate::mon::guard(|| build(a, &padded_c)) {
+        let n = padded_c.len() - k;
+        let arr = full.slice(k, n);
+        out.push(("sliced", arr, padded_c[k..].to_vec()));
+    }
+    out
+}
+
+/// one-row columns for every value: a whole-array failure (Err / panic)
+/// hides what the other rows would do
+fn singletons_kinds(a: &DataType, b: &DataType, vals: &[Val], into: &mut Vec<Finding>) {
+    let fo = FormatOptions::default();
+    let mut rng = Rng::new(7);
+    for v in vals {
+        let one = [v.clone()];
+        let Ok(arr) = crate::mon::guard(|| build(a, &one)) else { continue };
+        let r = run_pair(a, b, &one, &arr, &fo, &mut rng);
+        for f in r.findings {
+            if !into.iter().any(|g| g.kind == f.kind) {
+                into.push(Finding { kind: f.kind, detail: format!("single value {v:?}: {}", f.detail) });
+            }
+        }
+    }
+}
+
+fn whole_array_failure(r: &CastRun) -> bool {
+    r.findings.iter().any(|f| f.kind.starts_with("safe-err") || f.kind.starts_with("panic"))
+}
+
 impl Book {
     fn new() -> Self {
-        Book { probes: HashMap::new(), coarse: false, sig_cache: HashMap::new(), reported: BTreeSet::new() }
+        Book { probes: HashMap::new(), sig_cache: HashMap::new(), reported: BTreeSet::new() }
     }
 
     fn probe(&mut self, a: &DataType, b: &DataType) -> &BTreeSet<String> {
@@ -480,14 +692,46 @@ impl Book {
             let mut kinds = BTreeSet::new();
             if can_cast(a, b) {
                 let mut vals = boundary_vals(a);
+                if (has_small_dict(a) || has_small_dict(b)) && vals.len() > 90 {
+                    // 8-bit dictionary keys: the whole boundary column, in pieces
+                    kinds.extend(Self::kinds_on(a, b, &vals));
+                }
                 cap_rows(a, b, &mut vals);
                 let fo = FormatOptions::default();
                 let mut rng = Rng::new(7);
+                let mut all: Vec<Finding> = vec![];
                 for (arr, v) in [(build(a, &[]), &vals[..0]), (build(a, &vals), &vals[..])] {
                     let r = run_pair(a, b, v, &arr, &fo, &mut rng);
-                    for f in r.findings {
-                        kinds.insert(f.kind);
+                    if whole_array_failure(&r) && !v.is_empty() {
+                        singletons_kinds(a, b, v, &mut all);
                     }
+                    all.extend(r.findings);
+                }
+                for (name, arr, logical) in adversarial(a, &vals) {
+                    let r = run_pair(a, b, &logical, &arr, &fo, &mut rng);
+                    if name == "masked-all" && whole_array_failure(&r) {
+                        // one hidden value at a time
+                        for v in vals.iter().filter(|v| !v.is_null()) {
+                            let Ok(one) = crate::mon::guard(|| build(a, std::slice::from_ref(v))) else { continue };
+                            let Some(m) = mask_rows(&one, |_| false) else { break };
+                            let lg = extract(m.as_ref());
+                            for f in run_pair(a, b, &lg, &m, &fo, &mut rng).findings {
+                                if !all.iter().any(|g| g.kind == f.kind) {
+                                    all.push(f);
+                                }
+                            }
+                        }
+                    }
+                    all.extend(r.findings);
+                }
+                // physically valid values outside the declared domain, as they
+                // occur under nulls and in unused dictionary / run slots
+                let wild = wild_vals(a);
+                if !wild.is_empty() {
+                    singletons_kinds(a, b, &wild, &mut all);
+                }
+                for f in all {
+                    kinds.insert(f.kind.strip_suffix("|layout-dependent").unwrap_or(&f.kind).to_string());
                 }
             }
             self.probes.insert(key.clone(), kinds);
@@ -495,70 +739,92 @@ impl Book {
         &self.probes[&key]
     }
 
-    /// kinds `(a, b)` shows on the given logical column (canonical layout)
+    /// classes `(a, b)` shows on the given logical column (canonical layout)
     fn kinds_on(a: &DataType, b: &DataType, col: &[Val]) -> BTreeSet<String> {
         let mut kinds = BTreeSet::new();
-        let mut col = col.to_vec();
-        cap_rows(a, b, &mut col);
+        if (has_small_dict(a) || has_small_dict(b)) && col.len() > 90 {
+            // 8-bit dictionary keys: the column in pieces
+            for chunk in col.chunks(89) {
+                kinds.extend(Self::kinds_on(a, b, chunk));
+            }
+            return kinds;
+        }
+        let col = col.to_vec();
         let fo = FormatOptions::default();
         let mut rng = Rng::new(7);
         if let Ok(arr) = crate::mon::guard(|| build(a, &col)) {
             let r = run_pair(a, b, &col, &arr, &fo, &mut rng);
-            for f in r.findings {
+            let mut all = vec![];
+            if whole_array_failure(&r) && col.len() <= 400 {
+                singletons_kinds(a, b, &col, &mut all);
+            }
+            all.extend(r.findings);
+            for f in all {
                 kinds.insert(f.kind);
             }
         }
         kinds
     }
 
-    /// Signature of a finding of `kind` observed on `(a, b)` with input `vals`.
-    /// It is attributed to the innermost pair that shows the same kind on its
-    /// own (on its boundary column or on the part of the witness it receives):
-    /// the leaf pair (exact per-type-pair key), or the container step that
-    /// introduces it (`via=<step>`). `coarse` (random type pairs) drops the
-    /// message part of container-level keys so that the key set stays finite.
-    fn sig(&mut self, a: &DataType, b: &DataType, kind: &str, vals: &[Val], coarse: bool) -> String {
+    /// Defect-level signature of a finding of `kind` observed on `(a, b)`.
+    ///
+    /// The key is computed from the observation only: the phenomenon, the
+    /// type-free message class (errors, panics) and the *locus* - the family
+    /// pair of the innermost level of the cast that shows the same phenomenon
+    /// on its own deterministic columns or on its part of the witness, or the
+    /// container step that introduces it. Exact types, units, zones and the
+    /// container path stay in the detail text.
+    fn sig(&mut self, a: &DataType, b: &DataType, kind: &str, vals: &[Val]) -> String {
+        let k = kind.strip_suffix("|layout-dependent").unwrap_or(kind);
+        if k == "strict-err-but-safe-kept-all" && k != kind {
+            // strict mode fails on values that are not part of the logical
+            // column (under nulls, unused dictionary values, outside a slice)
+            return format!("{P}|strict-err-on-hidden-values");
+        }
+        self.descend(a, b, k, vals)
+    }
+
+    fn descend(&mut self, a: &DataType, b: &DataType, k: &str, vals: &[Val]) -> String {
+        let cls = coarse(k);
         let (subs, tag) = sub_columns(a, b, vals);
         if subs.is_empty() {
-            let st = |t: &DataType| -> String {
-                let mut n = sig_type(t);
-                if coarse {
-                    // random precision / scale: one key for all decimal widths
-                    for w in ["32", "64", "128", "256"] {
-                        for sg in ["+", "-"] {
-                            n = n.replace(&format!("Decimal{w}({sg})"), "Decimal");
-                        }
-                    }
-                    // random children: the constructor only
-                    for c in ["UnionD<", "UnionS<", "Struct<", "Map<"] {
-                        if n.starts_with(c) {
-                            n = c.trim_end_matches('<').to_string();
-                        }
-                    }
-                }
-                n
-            };
-            return format!("{P}|{kind}|{}->{}", st(a), st(b));
+            return format!("{P}|{k}|{}->{}", fam(a), fam(b));
         }
-        let base = kind.split('|').next().unwrap_or(kind);
-        if kind.ends_with("|layout-dependent") {
-            // hidden values: one key per container step, whatever the message
-            return format!("{P}|{base}|layout-dependent|via={tag}");
+        if is_err_kind(k) && struct_name_trap(a, b) {
+            return format!("{P}|can-cast-but-unsupported|struct-matched-by-position-cast-by-name");
         }
         for (x, y, col) in &subs {
             if !can_cast(x, y) {
                 continue;
             }
-            if self.probe(x, y).contains(kind) || Self::kinds_on(x, y, col).contains(kind) {
-                return self.sig(x, y, kind, col, coarse);
+            if self.probe(x, y).contains(k) || Self::kinds_on(x, y, col).contains(k) {
+                return self.descend(x, y, k, col);
             }
         }
-        if coarse && !kind.contains("dictionary packing") {
-            format!("{P}|{base}|via={tag}")
+        if k.starts_with("can-cast-but-unsupported") {
+            format!("{P}|{k}|via={tag}")
+        } else if is_err_kind(k) {
+            format!("{P}|{k}|container")
         } else {
-            format!("{P}|{kind}|via={tag}")
+            format!("{P}|{cls}|via={tag}")
         }
     }
+}
+
+/// `can_cast_types` falls back to matching struct fields by position where
+/// `cast` matches them by name: a pair that is castable only positionally
+fn struct_name_trap(a: &DataType, b: &DataType) -> bool {
+    let (DataType::Struct(fa), DataType::Struct(fb)) = (a, b) else { return false };
+    if fa.len() != fb.len() {
+        return false;
+    }
+    let same_order = fa.iter().zip(fb.iter()).all(|(x, y)| x.name() == y.name());
+    let by_name = !same_order && fb.iter().all(|t| fa.iter().any(|f| f.name() == t.name()));
+    by_name
+        && fb.iter().any(|t| {
+            let f = fa.iter().find(|f| f.name() == t.name()).unwrap();
+            !can_cast(f.data_type(), t.data_type())
+        })
 }
 
 fn flatten_lists(vals: &[Val]) -> Vec<Val> {
@@ -661,12 +927,11 @@ fn sub_pairs(a: &DataType, b: &DataType) -> (Vec<(DataType, DataType)>, &'static
 
 fn report(ctx: &mut Ctx, book: &mut Book, a: &DataType, b: &DataType, vals: &[Val], layout: &str, r: &CastRun) {
     for f in &r.findings {
-        let coarse = book.coarse;
         let key = (format!("{a}"), format!("{b}"), f.kind.clone());
         let sig = match book.sig_cache.get(&key) {
             Some(s) => s.clone(),
             None => {
-                let s = book.sig(a, b, &f.kind, vals, coarse);
+                let s = book.sig(a, b, &f.kind, vals);
                 book.sig_cache.insert(key, s.clone());
                 s
             }
@@ -732,7 +997,7 @@ fn inverse(ctx: &mut Ctx, book: &mut Book, a: &DataType, b: &DataType, vals: &[V
             for i in 0..vals.len() {
                 if r.clean[i] && r2.clean[i] && !contains_nan(&vals[i]) && !val_eq(&z[i], &vals[i]) {
                     let (la, lb, _) = full_peel(a, b);
-                    let sig = format!("{P}|inverse-not-identity|{}->{}->{}", sig_type(&la), sig_type(&lb), sig_type(&la));
+                    let sig = format!("{P}|inverse-not-identity|{}->{}->{}", fam(&la), fam(&lb), fam(&la));
                     ctx.violation(
                         &sig,
                         format!(
@@ -783,19 +1048,34 @@ fn mask_rows(arr: &ArrayRef, keep: impl Fn(usize) -> bool) -> Option<ArrayRef> {
     Some(arrow_array::make_array(data))
 }
 
-/// deterministic hidden-value layouts of the boundary column: every row
-/// masked, and every second row masked
+/// deterministic adversarial layouts of the boundary column (masked, sliced)
 fn masked_columns(ctx: &mut Ctx, book: &mut Book, a: &DataType, b: &DataType, vals: &[Val], rng: &mut Rng) {
-    let what = format!("masked {a} -> {b}");
+    let what = format!("adversarial {a} -> {b}");
     guarded(ctx, &what, |ctx| {
-        let full = build(a, vals);
-        for (name, step) in [("masked-all", 1usize), ("masked-odd", 2)] {
-            let Some(arr) = mask_rows(&full, |i| step == 2 && i % 2 == 0) else { return };
-            let logical: Vec<Val> = extract(arr.as_ref());
+        for (name, arr, logical) in adversarial(a, vals) {
             let r = run_checked(a, b, &logical, &arr, false, rng);
             classify(ctx, a, b, name, &r);
             report(ctx, book, a, b, &logical, name, &r);
         }
+    });
+}
+
+/// one-row columns of the boundary values when the whole column fails
+fn singleton_columns(ctx: &mut Ctx, book: &mut Book, a: &DataType, b: &DataType, vals: &[Val]) {
+    let what = format!("singletons {a} -> {b}");
+    guarded(ctx, &what, |ctx| {
+        let fo = FormatOptions::default();
+        let mut rng = Rng::new(7);
+        let full = build(a, vals);
+        let r = run_pair(a, b, vals, &full, &fo, &mut rng);
+        if !whole_array_failure(&r) {
+            return;
+        }
+        let mut found: Vec<Finding> = vec![];
+        singletons_kinds(a, b, vals, &mut found);
+        ctx.count("singleton_sweeps", 1);
+        let r2 = CastRun { findings: found, ..Default::default() };
+        report(ctx, book, a, b, vals, "single-row", &r2);
     });
 }
 
@@ -927,6 +1207,7 @@ fn section_grid(ctx: &mut Ctx, book: &mut Book, random: bool) {
             check_column(ctx, book, a, b, &bv, true, &mut rng);
             check_column(ctx, book, a, b, &bv, false, &mut rng);
             masked_columns(ctx, book, a, b, &bv, &mut rng);
+            singleton_columns(ctx, book, a, b, &bv);
         }
     }
 }
@@ -993,7 +1274,6 @@ fn has_union_with_encoded_child(dt: &DataType) -> bool {
 }
 
 fn section_rand(ctx: &mut Ctx, book: &mut Book) {
-    book.coarse = true;
     let total = ctx.tier.pick(40, 200_000, 24_000_000);
     for idx in ctx.cases("rand", total) {
         if ctx.out_of_time() {
@@ -1226,13 +1506,13 @@ fn section_text(ctx: &mut Ctx) {
         if fails.len() == 3 && classes.len() == 1 {
             let c = classes.iter().next().unwrap();
             ctx.violation(
-                &format!("{P}|text-roundtrip|{}|fmt={}|{c}", sig_type(t), fmt.name),
+                &format!("{P}|text-roundtrip|{}|{c}", fam(t)),
                 format!("{t} -> Utf8/LargeUtf8/Utf8View -> {t} with format {}: {}\ninput {}", fmt.name, fails[0].1, dump_vals(&vals)),
             );
         } else {
             for (c, d) in &fails {
                 ctx.violation(
-                    &format!("{P}|text-roundtrip|{}|fmt={}|{c}", sig_type(t), fmt.name),
+                    &format!("{P}|text-roundtrip|{}|{c}", fam(t)),
                     format!("{t} -> string -> {t} with format {}: {d}\ninput {}", fmt.name, dump_vals(&vals)),
                 );
             }
@@ -1448,11 +1728,12 @@ fn section_dtype(ctx: &mut Ctx) {
             Some((sub, class, detail)) => {
                 let names: BTreeSet<&'static str> = field_names(&sub).iter().map(|n| name_class(n)).collect();
                 let names: Vec<&str> = names.into_iter().filter(|c| *c != "plain").collect();
-                let sig = format!(
-                    "{P}|dtype-roundtrip|{}|{class}{}",
-                    constructor(&sub),
-                    if names.is_empty() { String::new() } else { format!("|names={}", names.join("+")) }
-                );
+                // an unusual field name is the cause whatever the constructor
+                let sig = if names.is_empty() {
+                    format!("{P}|dtype-roundtrip|{}|{class}", constructor(&sub))
+                } else {
+                    format!("{P}|dtype-roundtrip|field-name={}|{class}", names.join("+"))
+                };
                 ctx.violation(&sig, format!("DataType Display -> FromStr: {detail}\nsmallest failing sub-type {sub:?}\nwhole type {dt:?}"));
             }
         }
